@@ -142,7 +142,7 @@ def p1_binding_and_renaming(ctx: Ctx):
     ctx.check('self.gensym = Gensym(self.def_use.names())' in norm(init, 4000), INLINE, init, '_FuncInline.__init__', 'fresh names avoid every name of the caller', 'generator seeding changed')
     ctx.check('self.gensym.reserve(*def_use.names())' in norm(fn, 40000), INLINE, fn, q, 'names of a recursively inlined callee are reserved too', 'reservation dropped')
     # free variables: a clash between caller and callee environments raises
-    clash = [s for s in ast.walk(fn) if isinstance(s, ast.If) and norm(s.test) == 'val != e.fn.env.get(str(name))']
+    clash = [s for s in ast.walk(fn) if isinstance(s, ast.If) and 'e.fn.env.get(str(name))' in norm(s.test) and 'val' in {x.id for x in ast.walk(s.test) if isinstance(x, ast.Name)}]
     ctx.check(len(clash) == 1 and isinstance(clash[0].body[0], ast.Raise), INLINE, fn, q, 'conflicting free variables are refused (raise)', 'conflict check changed')
     # the return value is bound to a fresh temporary and that temporary replaces the call
     rets = [s for s in walk_no_nested(fn) if isinstance(s, ast.Return)]
@@ -239,6 +239,32 @@ def p4_captured_names(ctx: Ctx):
                 ok = True
     ctx.check(ok, INLINE, loops[0] if loops else fn, q, 'a captured name of the callee that the caller binds itself -> the call is not inlined',
               'no refusal: with a global K, callee(x) = x + K inlined into `K = 3; return callee(x) * K` reads the caller\'s K')
+    # (c) the same name captured by caller and callee is merged only when both hold the same value -- and `==` calls
+    # 0.0 and -0.0 (and 0, and False) the same.  The test of the guard is read from its source on value pairs.
+    import math as _math
+
+    from ..minipy import Interp, Obj
+    guard = None
+    for lp in loops:
+        for s in ast.walk(lp):
+            if isinstance(s, ast.If) and any(isinstance(x, ast.Raise) for x in s.body) and 'e.fn.env.get(str(name))' in norm(s.test):
+                guard = s
+    if guard is None:
+        raise ShapeError('_visit_call: the conflicting-free-variable refusal was not found')
+    funcs = {q2: f for q2, f in ctx.repo.functions(INLINE) if '.' not in q2}
+
+    def zero(neg):
+        return Obj('Float', s=neg, eq=lambda me, other: isinstance(other, Obj) and other.kind == 'Float')
+    pairs = [(0.0, -0.0, True), (-0.0, 0.0, True), (0.0, 0.0, False), (1.5, 1.5, False), (0, 0.0, True), (False, 0, True), ([0.0, 1.0], [-0.0, 1.0], True), ((1.0, 2.0), (1.0, 2.0), False),
+             ([1.0], [1.0, 2.0], True), (zero(False), zero(True), True), (zero(True), zero(True), False), ('a', 'a', False), (1.0, 2.0, True)]
+    bad = None
+    for a_, b_, conflict in pairs:
+        it = Interp(funcs, overrides={'math.copysign': _math.copysign})
+        got = bool(it.ev(guard.test, {'val': a_, 'e': Obj('Call', fn=Obj('Function', env=Obj('env', get=lambda k, v=b_: v))), 'name': 'K', 'str': str}))
+        if got != conflict and conflict and bad is None:
+            bad = f'caller K = {a_!r}, callee K = {b_!r}: taken for the same value'
+    ctx.check(bad is None, INLINE, guard, q, f'captured values of one name are merged only when they are the same value, sign and kind included ({len(pairs)} pairs)',
+              (bad or '') + ': the callee\'s K replaces the caller\'s in the merged environment (copysign(x, K) flips)')
     init = ctx.fn(INLINE, '_FuncInline.__init__')
     t = norm(init, 6000)
     ok = 'self.bound = {d.name for d in def_use.defs if isinstance(d, AssignDef) and (not d.is_free)}' in t
@@ -379,6 +405,10 @@ RULES = [
 from ..selftest import Mutant  # noqa: E402
 
 MUTANTS = [
+    Mutant('captured-values-compared-with-ne', INLINE, "                if not _same_captured(val, e.fn.env.get(str(name))):", "                if val != e.fn.env.get(str(name)):", 'C09.P4',
+           'finding F75 before its repair: caller K = 0.0, callee K = -0.0'),
+    Mutant('captured-floats-by-value-only', INLINE, "        return a == b and math.copysign(1.0, a) == math.copysign(1.0, b)", "        return a == b", 'C09.P4'),
+    Mutant('captured-kinds-not-compared', INLINE, "    if type(a) is not type(b):\n        return False\n", "", 'C09.P4'),
     Mutant('stale-values-kept-after-an-inner-loop', 'fpy2/analysis/partial_eval.py', "        self.by_expr.pop(e, None)\n        super()._visit_expr(e, ctx)",
            "        if getattr(self, '_revisiting', True):\n            self.by_expr.pop(e, None)\n        super()._visit_expr(e, ctx)", 'C09.D1',
            'seeded change C09d (with the flag cleared when an inner loop converges): a loop-varying constructor is hoisted'),
@@ -431,7 +461,7 @@ MUTANTS = [
     Mutant('args-bound-after-body', INLINE, "        # bind the return value to a fresh variable and splice into the current block\n        t = self.gensym.fresh('t')\n        _replace_ret(ast.body, t)",
            "        t = self.gensym.fresh('t')", 'C09.P1'),
     Mutant('callee-locals-not-renamed', INLINE, "            if isinstance(d, AssignDef) and not d.is_free:\n                subst[d.name] = self.gensym.refresh(d.name)", "            if False:\n                subst[d.name] = self.gensym.refresh(d.name)", 'C09.P1'),
-    Mutant('free-var-clash-ignored', INLINE, "                if val != e.fn.env.get(str(name)):\n                    raise RuntimeError(f'cannot inline function `{e.fn.name}` due to conflicting free variable `{name}`')", "                pass", 'C09.P1'),
+    Mutant('free-var-clash-ignored', INLINE, "                if not _same_captured(val, e.fn.env.get(str(name))):\n                    raise RuntimeError(f'cannot inline function `{e.fn.name}` due to conflicting free variable `{name}`')", "                pass", 'C09.P1'),
     Mutant('index-before-refusal', INLINE, "        # a refusal is not a site, so it takes no index\n        reason = _refuses(e, in_while_cond=ctx.in_while_cond, in_conditional=ctx.in_conditional)",
            "        self.site_idx += 0\n        idx0 = self.site_idx\n        reason = _refuses(e, in_while_cond=False, in_conditional=None)", 'C09.G1'),
     Mutant('lift-reemits-constructor', LIFT, "self.name_to_expr[name] = ForeignVal(eval_info.by_expr[e], e.loc)", "self.name_to_expr[name] = e", 'C09.G2',
